@@ -140,6 +140,7 @@ type mStream struct {
 }
 
 type model struct {
+	limit    int   // MaxConcurrentStreams of the server (0: not limited in this run)
 	peerGone bool  // the peer has sent GOAWAY: what it opens afterwards may be served or refused
 	initWin  int64 // the peer's SETTINGS_INITIAL_WINDOW_SIZE as last sent (0 = never sent: 65535)
 	s        map[uint32]*mStream
@@ -235,6 +236,19 @@ func (m *model) step(f sym) expect {
 	return e
 }
 
+// slotsUsed counts the streams that hold one of the server's MaxConcurrentStreams slots: the ones still being received or
+// served, and the ones that are closed for the peer but whose handler is still parked (a cancelled stream keeps its slot
+// until its handler returns).
+func (m *model) slotsUsed() int {
+	n := 0
+	for _, st := range m.s {
+		if st.st == stOpen || st.st == stHCR || (st.st == stClosed && st.dispatched && m.parked) {
+			n++
+		}
+	}
+	return n
+}
+
 func (m *model) stepLive(f sym) expect {
 	sErr := func(code uint32, why, key string) expect {
 		return expect{S: []uint32{code}, C: []uint32{code}, Why: why, Key: key}
@@ -302,6 +316,16 @@ func (m *model) stepLive(f sym) expect {
 	}
 	st := m.get(f.ID)
 	key := stName(st) + "/" + string(f.K)
+	if m.limit > 0 && (f.K == 'H' || f.K == 'M') && st.st == stIdle && m.inBlock == 0 && m.slotsUsed() >= m.limit {
+		// only HEADERS can be refused: it is the one frame that opens a stream (every other frame on an idle id keeps the
+		// reaction its type has, limit or no limit)
+		e := expect{S: []uint32{7}, Why: "a new stream beyond SETTINGS_MAX_CONCURRENT_STREAMS is refused (5.1.2)", Key: key + "[at-the-limit]"}
+		if f.K == 'M' || f.Self {
+			e.S = append(e.S, cProtocol)
+			e.C = []uint32{cProtocol}
+		}
+		return e
+	}
 	switch f.K {
 	case 'P':
 		if f.Self {
@@ -474,9 +498,14 @@ func (m *model) commit(f sym, e expect, serverReset bool) {
 		if f.K == 'H' && st.st == stIdle && f.ID > m.highest {
 			m.highest = f.ID // the id has been used, whatever became of the request (5.1.1)
 		}
+		wasIdle := st.st == stIdle
 		st.st, st.how = stClosed, byServerRST
 		if m.inBlock == f.ID {
 			m.inBlock = 0
+		}
+		if f.K == 'H' && wasIdle && !f.EH {
+			// refused or reset at its first frame: the rest of its header block is still to come (and to be decoded)
+			m.inBlock, m.blockES = f.ID, false
 		}
 		return
 	}
@@ -686,12 +715,16 @@ func in(codes []uint32, c uint32) bool {
 }
 
 // c08Run plays one sequence on a fresh connection and judges every step.
-func c08Run(r *vf.Run, t *testing.T, id string, seq []sym, parked bool) {
+func c08Run(r *vf.Run, t *testing.T, id string, seq []sym, parked bool, limit ...int) {
+	lim := 0
+	if len(limit) > 0 {
+		lim = limit[0]
+	}
 	var names []string
 	for _, f := range seq {
 		names = append(names, f.String())
 	}
-	replay := map[string]any{"sequence": names, "handlers_parked": parked}
+	replay := map[string]any{"sequence": names, "handlers_parked": parked, "max_concurrent_streams": lim}
 	failed := false
 	var triggers []string
 	fail := func(rule, detail string) {
@@ -702,8 +735,8 @@ func c08Run(r *vf.Run, t *testing.T, id string, seq []sym, parked bool) {
 	}
 	offended := map[uint32]bool{} // streams on which an earlier frame was a stream-scoped offence (per the model, input only)
 	res := rt.RunBubble(t, id, 30*time.Second, func() {
-		e := rt.NewServerEnv(id, rt.ServerOpts{})
-		m := &model{s: map[uint32]*mStream{}, parked: parked}
+		e := rt.NewServerEnv(id, rt.ServerOpts{MaxConcurrentStreams: lim})
+		m := &model{s: map[uint32]*mStream{}, parked: parked, limit: lim}
 		g := &c08Gen{remaining: map[uint32][]byte{}, wholeInHeaders: vf.Hash(id)%2 == 0}
 		var gate chan struct{}
 		if parked {
@@ -961,6 +994,33 @@ func TestC08(t *testing.T) {
 			}
 		}
 	}
+	// at the concurrency limit (MaxConcurrentStreams 1, the one slot taken by a parked request): every symbol, and in the
+	// thorough tier every pair of symbols, after it
+	{
+		first := sym{K: 'H', ID: idA, ES: true, EH: true}
+		atLimit := func(seq []sym) {
+			ci++
+			id := fmt.Sprintf("q%d", ci)
+			if !r.Want(ci, id) {
+				return
+			}
+			var names []string
+			for _, f := range seq {
+				names = append(names, f.String())
+			}
+			r.Progress(id, strings.Join(names, " "))
+			c08Run(r, t, id, seq, true, 1)
+			r.Eval(vf.Hash(names, "limit1"), true)
+		}
+		for _, a := range alpha {
+			atLimit([]sym{first, a})
+			if r.Thorough() {
+				for _, b := range alpha {
+					atLimit([]sym{first, a, b})
+				}
+			}
+		}
+	}
 	// PRNG longer sequences, biased towards legal prefixes
 	n := r.Pick(6000, 400000)
 	for i := 0; i < n; i++ {
@@ -984,10 +1044,15 @@ func TestC08(t *testing.T) {
 		}
 		r.Progress(id, strings.Join(names, " "))
 		parked := rng.Intn(2) == 0
-		c08Run(r, t, id, seq, parked)
-		r.Eval(vf.Hash(names, parked), true)
+		lim := 0
+		if rng.Intn(3) == 0 {
+			// the server allows one or two concurrent streams and the handlers are parked: whatever is opened stays open
+			parked, lim = true, 1+rng.Intn(2)
+		}
+		c08Run(r, t, id, seq, parked, lim)
+		r.Eval(vf.Hash(names, parked, lim), true)
 		if r.WantSample() {
-			r.Sample(map[string]any{"case": id, "sequence": names, "handlers_parked": parked})
+			r.Sample(map[string]any{"case": id, "sequence": names, "handlers_parked": parked, "max_concurrent_streams": lim})
 		}
 	}
 }
